@@ -141,5 +141,7 @@ class SocketSpawn(SpawnBase):
                     self.flag_eof = True
                     raise EOF("Socket closed")
                 return s
-        except socket.timeout:
+        except (socket.timeout, BlockingIOError):
+            # timeout=0 puts the socket in non-blocking mode, which reports
+            # 'nothing to read right now' as BlockingIOError
             raise TIMEOUT("Timeout exceeded.")
